@@ -28,9 +28,18 @@ func check(t *testing.T, name string, q, th int, prop func(*rapid.T)) {
 	})
 }
 
-// genExtent over-represents 1 (gorgonia's extent-1 slicing rule), then 2 and 3.
+// bigExtents: sizes around the block / vector-width boundaries of the kernels underneath (gonum
+// blocks at 64, SIMD widths 4/8/16, bytes.Reader chunks), drawn occasionally so that code paths that
+// only exist for larger tensors are reached; the callers' element caps keep the cases cheap.
+var bigExtents = []int{9, 15, 16, 17, 31, 32, 33, 63, 64, 65, 100, 127, 128, 129, 257}
+
+// genExtent over-represents 1 (gorgonia's extent-1 slicing rule), then 2 and 3; for max >= 4 one
+// draw in 16 is a big extent (see bigExtents).
 func genExtent(max int) *rapid.Generator[int] {
 	return rapid.Custom(func(t *rapid.T) int {
+		if max >= 4 && rapid.IntRange(0, 15).Draw(t, "big") == 0 {
+			return rapid.SampledFrom(bigExtents).Draw(t, "bigExt")
+		}
 		switch rapid.IntRange(0, 9).Draw(t, "extk") {
 		case 0, 1, 2:
 			return 1
